@@ -744,6 +744,26 @@ func execSeq(x *fw.Ctx, c Case) {
 			}
 			want = st.DispatchCPL(cpls)
 			got = g.callObjs(g.scope, objs)
+			if got.Err != nil && got.Err.Internal {
+				// an argument whose class waits for an undefined superclass has
+				// no precedence list (not even the class itself)
+				unfinished := false
+				for i, l := range cpls {
+					unfinished = unfinished || (classes[i] != ref.Out && (len(l) == 1 || l[0] != classes[i]))
+				}
+				if unfinished {
+					x.Fail("call-on-unfinished-class diff=internal-fault", "%s after [%s] (precedence lists %v): %s", callOp(classes), history(k), cpls, got.Err)
+				}
+				if lockLeaked(g.name) {
+					x.Fail("dispatch-lock-leak", "%s after [%s] ended with %s and left the generic function's lock locked: every later call of %s would block for ever",
+						callOp(classes), history(k), got.Err, g.name)
+					forceUnlock(g.name)
+				}
+				if unfinished {
+					nCalls++
+					return
+				}
+			}
 			stale = false
 			if useOrig {
 				x.Cover("call:retained-instance")
@@ -1209,6 +1229,12 @@ var probes = []Case{
 		Ops: []string{"K0:", "K1:", "K2:0", "K3:2", "Dp0", "Dp1", "Db1", "C3", "C2", "K2:01", "C3", "C2", "C1", "K4:3", "C4", "C3", "K2:1", "C4", "C3", "C2", "K2:", "C2", "C3", "C4"}},
 	{Kind: "seq", Fam: "dag", Ar: 2, Note: "probe-class-redefinition", Sweep: true,
 		Ops: []string{"K0:", "K1:0", "K2:1", "K3:1", "Dp00", "Dp10", "Dp01", "Db0t", "Dat1", "C23", "C32", "C22", "C11", "K1:", "C32", "C23", "C22", "C33", "C11", "K1:0", "C33", "C23"}},
+	// a class is redefined with a superclass that is not defined yet: the
+	// class and its subclasses have no precedence list until it is; a call
+	// with an existing instance of a subclass (listed findings: internal
+	// fault, and the generic function's lock stays locked)
+	{Kind: "seq", Fam: "dag", Ar: 1, Note: "probe-unfinished-class",
+		Ops: []string{"K0:", "K1:0", "K2:1", "Dp0", "Db1", "C2", "K1:7", "c2", "c2", "K7:", "C2", "c2", "C1", "C0"}},
 	// instances that outlive a redefinition of their class keep the original
 	// class; they share the cache key (the class name) with new instances
 	{Kind: "seq", Fam: "dag", Ar: 1, Note: "probe-retained-instances", Retained: true,
@@ -1270,7 +1296,7 @@ func init() {
 	// class definitions while calls are in flight (fixed shapes): a superclass
 	// removed and added again, new classes only, two superclasses reordered
 	cd := func(ar int, pre []string, thr ...[]string) {
-		for k := 0; k < 6; k++ {
+		for k := 0; k < 16; k++ {
 			probes = append(probes, Case{Kind: "cdag", Fam: "dag", Ar: ar, Note: "cdag-probe", Pre: pre, Thr: thr, PSeed: uint64(3000 + k)})
 		}
 	}
